@@ -143,7 +143,7 @@ TPL_PIECES = ["114.111.116.111.110.100.97.47", "123.105.100.125", "123", "105.10
 
 def gen_mqtt_case(rng, defects):
     ops = []
-    name = rng.choice([0, 0, 0, 1, 3, 4])
+    name = rng.choice([0, 0, 0, 0, 0, 0, 1, 3, 4])
     if name or rng.chance(30):
         ops.append("name %d" % name)
     if rng.chance(55):
@@ -153,6 +153,8 @@ def gen_mqtt_case(rng, defects):
     if defects and rng.chance(50):
         ops.append("early")
     names = [name, name, 0, 1, 2, 3, 4]
+    for _ in range(rng.weighted([(0, 40), (1, 35), (2, 25)])):
+        ops.append("ing " + " ".join(opt(rng, lambda: rng.below(3 if i == 4 else 4), 45) for i in range(8)))
     for _ in range(rng.range(1, 8)):
         r = rng.below(100)
         if r < 18:
